@@ -39,6 +39,10 @@ TRUSTED = [
     "harness/epr.py: InProcConnection decodes the serialized host messages and drives the executor in-process",
 ]
 ASSUMPTIONS = [
+    "the argument vocabulary of the create/receive entry points is enumerated from their signatures (inspect): "
+    "number, post_routine, sequential, time_unit, max_time, min_fidelity_all_at_end, max_tries, basis_*, "
+    "rotations_*, random_basis_*, expect_phi_plus; an unknown parameter is reported. min_fidelity_all_at_end is "
+    "only combined with entry points that also take max_tries (the builder asserts it)",
     "every host-side accessor of the result handles is compared with the delivered response, including "
     "Qubit.remote_entangled_node, for both node placements (local 0 / remote 1 and local 1 / remote 0) and "
     "falsy values (node id 0, create id 0, sequence number 0, goodness 0, Bell state 0)",
@@ -215,6 +219,15 @@ def run(ctx):
         pc = H.gen_pair_case(rng)
         res.evaluations += 1
         _check_pair(ctx, res, H, pc)
+    # ---- every optional argument of every create / receive entry point (vocabulary enumerated from the
+    # signatures), every request type: the request(s) the stack receives vs expectedCreate
+    for n, p in H.unknown_entry_args():
+        res.failures.append({"what": "EPRSocket.%s has a parameter %r the request vocabulary does not cover" % (n, p),
+                             "kf": None, "input": {"entry": n, "param": p}})
+    for _ in range(1500 if ctx.thorough else 300):
+        ac = H.gen_api_case(rng)
+        res.evaluations += 1
+        _check_api(ctx, res, H, ac)
     # ---- API objects reused across connections: one EPRSocket object on several connections (successive
     # or alive at once) whose networks place the remote party on different nodes
     for _ in range(1200 if ctx.thorough else 250):
@@ -361,6 +374,38 @@ def _check_qlink_layer(ctx, res, H, rng, n):
                 break
 
 
+def _check_api(ctx, res, H, ac):
+    out = H.run_api_case(ac)
+    inp = {"api_case": ac}
+    res.count("entry:%s" % ac["entry"])
+    for k in ac["args"]:
+        res.count("arg:%s" % k)
+    if out["raised"]:
+        res.failures.append({"what": "EPRSocket.%s(%s) raised %s" % (ac["entry"], sorted(ac["args"]), out["raised"]),
+                             "kf": None, "input": inp})
+        return out
+    if out["stuck"]:
+        res.failures.append({"what": "EPRSocket.%s(%s): the request never completed" % (ac["entry"], sorted(ac["args"])),
+                             "kf": None, "input": inp})
+        return out
+    res.nontrivial.add(json.dumps(ac, sort_keys=True))
+    if ac["entry"] in H.CREATE_ENTRY:
+        if not out["requests"]:
+            res.failures.append({"what": "EPRSocket.%s put no request" % ac["entry"], "kf": None, "input": inp})
+            return out
+        m = ctx.driver.call({"op": "eprreq.request", **H.api_expected(ac)})
+        for k, real in enumerate(out["requests"]):
+            if m.get("expected") != real:
+                diff = [[a, b] for a, b in zip(m.get("expected") or [], real) if a != b]
+                res.failures.append({"what": "EPRSocket.%s(%s): request %d reached the stack as %s"
+                                             % (ac["entry"], sorted(ac["args"]), k, diff[:3]), "kf": None,
+                                     "input": {**inp, "expected": m.get("expected"), "got": real}})
+                break
+    elif out["requests"]:
+        res.failures.append({"what": "a receive entry point put a request", "kf": None, "input": inp})
+    return out
+
+
 def _check_pair(ctx, res, H, pc):
     out = H.run_pair_case(pc)
     inp = {"pair_case": pc}
@@ -487,6 +532,12 @@ def replay(ctx, payload):
         res = Result()
         _check_qlink_layer(ctx, res, H, ctx.rng, 300)
         for f in res.failures[:3]:
+            print("FAIL:", f["what"])
+        return 1 if res.failures else 0
+    if "api_case" in inp:
+        res = Result()
+        _check_api(ctx, res, H, inp["api_case"])
+        for f in res.failures:
             print("FAIL:", f["what"])
         return 1 if res.failures else 0
     if "pair_case" in inp:
